@@ -31,6 +31,7 @@ def pre_state(w, sb, keys):
 
 def job_set_claim(ses):
     w = world(); ex = upper_executor(w); sb = SymBuilder(w)
+    if not sb.layout_ok(True): ses.notes.append(LAYOUT_NOTE); ses.bounds['builder layout'] = 'unknown to the harness: bounded histories only'; return
     f = w.fn(PB, 'set_claim')
     k = String('k_new'); val = Const('v_new', JV); kq = String('k_any')
     st = new_state([Length(k) < 2**30])
@@ -58,6 +59,7 @@ def job_set_claim(ses):
 
 def job_ack(ses):
     w = world(); ex = upper_executor(w); sb = SymBuilder(w)
+    if not sb.layout_ok(True): ses.notes.append(LAYOUT_NOTE); ses.bounds['builder layout'] = 'unknown to the harness: bounded histories only'; return
     f = w.fn(PB, 'set_no_expiration_danger_acknowledged'); kq = String('k_any')
     st = new_state([]); cell = st.new_cell(sb.value())
     pre = pre_state(w, sb, [kq, EXP, sb.DUPK])
@@ -74,6 +76,7 @@ def job_build(ses, proto):
     """build(): Err(DuplicateTopLevelPayloadClaim(k)) with k the flagged key iff the flag is set, then no core call; the flag, its key and the
     key set are unchanged afterwards (so every later build fails too); without a flag the core is reached"""
     w = world(); ex = upper_executor(w); sb = SymBuilder(w); p = PROTOCOLS[proto]
+    if not sb.layout_ok(True): ses.notes.append(LAYOUT_NOTE); ses.bounds['builder layout'] = 'unknown to the harness: bounded histories only'; return
     vt = w.type_text(proto)
     fs = [g for g in w.fns if g.file == PB and g.method == 'build' and g.impl and vt[0].split('::')[-1] in g.impl[1] and vt[1].split('::')[-1] in g.impl[1]]
     if len(fs) != 1: raise Unsupported('PasetoBuilder::<%s>::build: %d bodies' % (proto, len(fs)))
@@ -109,7 +112,8 @@ def job_build(ses, proto):
 def run(ses):
     from . import c13
     jobs = [(job_set_claim, ()), (job_ack, ())] + [(job_build, (p,)) for p in PROTOCOLS]
-    jobs += [(c13.job_histories, (2 if ses.tier == 'quick' else 3, ('c17',), i, 8)) for i in range(8)]
+    deep = ses.tier != 'quick' or not SymBuilder(world()).layout_ok(True)
+    jobs += [(c13.job_histories, (3 if deep else 2, ('c17',), i, 8)) for i in range(8)]
     run_jobs(ses, jobs)
     ses.trusted_base = TRUSTED
     ses.assumptions = ['the state before each step is ANY state satisfying the invariant (covers call sequences of every length and interleaving, including repeated builds)',
